@@ -46,7 +46,8 @@ Proof.
         assert (Hl : len x = k) by (rewrite Hxk, len_take; lia).
         rewrite !len_length in *. lia. }
   destruct (Hfull Hxx) as [Himg Hok].
-  rewrite Hxx, Hrt in Hparse. injection Hparse as <-. auto.
+  rewrite Hxx, Hrt in Hparse. injection Hparse as <-.
+  split; [exact Hxx|]. split; [reflexivity|]. split; [exact Himg|exact Hok].
 Qed.
 
 (** the same for the model of [E57Reader::new] as a whole (UTF-8 check, parser, extraction) *)
@@ -62,17 +63,50 @@ Corollary reader_new_accepts_only_complete :
   extract_all pf64 pf32 fdiv (tree_of m) = Ok m'.
 Proof.
   intros pf64 pf32 fdiv is m xml Hw Hx Hgen p tr Hsize n cut s h x m' Hnew.
+  pose proof (accepted_is_complete_xml is m xml Hw Hx Hgen Hsize n cut) as HA. fold p tr in HA.
+  revert Hnew HA. unfold open_result. generalize (crash_image tr n cut) (final_image p) (snd (wrun p pw_fresh)).
+  clear. intros img F res Hnew HA.
   unfold reader_new in Hnew.
-  destruct (reader_open (dev_init (crash_image tr n cut) None)) as [d1 r] eqn:Eo.
-  destruct r as [[[s0 h0] x0]|e|]; cbn [snd] in Hnew; try discriminate.
-  destruct (xml_meta pf64 pf32 fdiv x0) as [m0|e|] eqn:Em; cbn [snd] in Hnew; try discriminate.
-  injection Hnew as -> -> -> ->.
+  destruct (reader_open (dev_init img None)) as [d1 r].
+  destruct r as [[[s0 h0] x0]|e|]; [|discriminate Hnew|discriminate Hnew].
+  destruct (xml_meta pf64 pf32 fdiv x0) as [m0|e|] eqn:Em; [|discriminate Hnew|discriminate Hnew].
+  cbn [snd] in Hnew. injection Hnew as -> -> -> ->.
   unfold xml_meta, xml_read in Em.
-  destruct (negb _); [discriminate|].
-  destruct (xml_parse x) as [d'| |] eqn:Ep; try discriminate.
-  assert (Hopen : open_result (crash_image tr n cut) = Ok (s, h, x)) by (unfold open_result; rewrite Eo; reflexivity).
-  destruct (accepted_is_complete_xml is m xml Hw Hx Hgen Hsize n cut s h x d' Hopen Ep) as (E1 & E2 & E3 & E4).
-  subst d'. auto.
+  destruct (negb _); [discriminate Em|].
+  destruct (xml_parse x) as [d'| |] eqn:Ep; [|discriminate Em|discriminate Em].
+  destruct (HA s h x d' eq_refl Ep) as (E1 & E2 & E3 & E4).
+  subst d'. split; [exact E1|]. split; [exact E3|]. split; [exact E4|exact Em].
+Qed.
+
+(** non-vacuity: the metadata example of slice xg (an extension, a point cloud, a spherical image;
+    3141 bytes of XML) behind a small blob: the hypotheses hold, and the completed file itself is
+    an image the full reader accepts *)
+Definition cx_xml : list N := match gen_root xg_example with Ok b => b | _ => [] end.
+Definition cx_items : list FileBin.item := [IBlob [1; 2; 3; 4; 5]].
+
+Example cx_hypotheses :
+  writer_meta_ok xg_example = true /\ meta_xml_ok xg_example = true /\ gen_root xg_example = Ok cx_xml /\
+  len cx_xml = 3141 /\ len (final_image (crash_prog cx_items cx_xml)) = 4096.
+Proof. vm_compute. repeat split; reflexivity. Qed.
+
+Example cx_final_accepted :
+  let tr := trace_of (crash_prog cx_items cx_xml) in
+  match open_result (crash_image tr (length tr) 0) with
+  | Ok (_, _, x) => match xml_parse x with ParseOk d => xdoc_eqb d (tree_of xg_example) | _ => false end
+  | _ => false
+  end = true.
+Proof. vm_compute. reflexivity. Qed.
+
+Example cx_theorem_applies : forall (n cut : nat) s h x d',
+  let tr := trace_of (crash_prog cx_items cx_xml) in
+  open_result (crash_image tr n cut) = Ok (s, h, x) -> xml_parse x = ParseOk d' ->
+  x = cx_xml /\ d' = tree_of xg_example /\ crash_image tr n cut = final_image (crash_prog cx_items cx_xml).
+Proof.
+  intros n cut s h x d' tr Ho Hp.
+  destruct cx_hypotheses as (H1 & H2 & H3 & _ & H5).
+  destruct (accepted_is_complete_xml cx_items xg_example cx_xml H1 H2 H3) with (n := n) (cut := cut) (s := s) (h := h) (x := x) (d' := d')
+    as (E1 & E2 & E3 & _); auto.
+  rewrite H5. reflexivity.
 Qed.
 
 Print Assumptions accepted_is_complete_xml.
